@@ -181,9 +181,9 @@ theorem OnceCore.weaken {inp : Input} {s : Sys} (l : LId) (h : OnceInv inp s) : 
     invariant survives with `l` exempted -/
 theorem once_evalCreator {inp : Input} (wf : OnceWF inp) {s : Sys} {n : Name} {l : LId} {tT : TDef}
     (h : OnceInv inp s) (hh : Holder inp n l) (hT : s.tasks (toLoad inp l n) = some tT) (hm : mustCreate inp s l tT = true) :
-    onceOK (evalCreator inp s l (toLoad inp l n)).events = true ∧
-    (OnceCore inp (some l) (evalCreator inp s l (toLoad inp l n)) ∨
-     ∃ e, (evalCreator inp s l (toLoad inp l n)).susp = .err e) := by
+    onceOK (evalCreator inp s l (toLoad inp l n) b).events = true ∧
+    (OnceCore inp (some l) (evalCreator inp s l (toLoad inp l n) b) ∨
+     ∃ e, (evalCreator inp s l (toLoad inp l n) b).susp = .err e) := by
   -- the loader object found through the table is `l` itself, and it is not `created`
   obtain ⟨l', hl', hcr⟩ : ∃ l', tT.loader = some l' ∧ s.created l' = false := by
     unfold mustCreate at hm
@@ -246,7 +246,7 @@ theorem once_loaderStep {inp : Input} (wf : OnceWF inp) {s : Sys} {n : Name} {nd
     split
     · rename_i hm
       obtain ⟨ho, hc⟩ := once_evalCreator wf h hh hT hm
-      cases hs : (evalCreator inp s l (toLoad inp l n)).susp with
+      cases hs : (evalCreator inp s l (toLoad inp l n) nd.bad).susp with
       | err e => exact Or.inr ⟨e, hs, ho⟩
       | running => rcases hc with hc | ⟨e, he⟩
                    · exact hac _ hc
@@ -375,7 +375,7 @@ theorem afterCreate_same (inp : Input) (s : Sys) (n : Name) (nd : Node) (l : LId
       exact ⟨hf.1.trans hr.1, hf.2.trans hr.2⟩
 
 theorem eval_evalCreator {inp : Input} {s : Sys} {l : LId} (tname : Name) (h : EvalInv s)
-    (hfresh : inp.creatorOf l ∉ s.evaluated) : EvalInv (evalCreator inp s l tname) := by
+    (hfresh : inp.creatorOf l ∉ s.evaluated) : EvalInv (evalCreator inp s l tname b) := by
   have hnot : Ev.creator (inp.creatorOf l) ∉ s.events := fun hc => hfresh (h.mem _ hc)
   have honce : onceOK (Ev.creator (inp.creatorOf l) :: s.events) = true := by
     simp only [onceOK, h.o, Bool.and_true, Bool.not_eq_true']
@@ -403,10 +403,10 @@ theorem eval_loaderStep {inp : Input} (hp : inp.pinnedOnce = false) {s : Sys} (n
         unfold mustCreate at hm
         simp only [hp, Bool.false_or, Bool.and_eq_true, Bool.not_eq_true'] at hm
         simpa using hm.2
-      have h1 := eval_evalCreator (toLoad inp l n) h hfresh
+      have h1 := eval_evalCreator (b := nd.bad) (toLoad inp l n) h hfresh
       split
       · exact h1
-      · have hs := afterCreate_same inp (evalCreator inp s l (toLoad inp l n)) n nd l
+      · have hs := afterCreate_same inp (evalCreator inp s l (toLoad inp l n) nd.bad) n nd l
         exact h1.congr hs.1 hs.2
     · have hs := afterCreate_same inp s n nd l
       exact h.congr hs.1 hs.2
